@@ -468,6 +468,39 @@ class Run:
         return 1 if self.violations else 0
 
 
+class ImplTimeout(Exception):
+    """An implementation call exceeded its time limit (see `time_limit`)."""
+
+
+class time_limit:
+    """`with core.time_limit(5): f(x)` raises ImplTimeout when the (pure-Python, main-thread) call
+    runs longer than `seconds`.  Used around single calls into /repo whose termination is part of
+    the property (a changed implementation may loop).  Nested use keeps the outer deadline."""
+
+    def __init__(self, seconds: float):
+        self.seconds = seconds
+
+    def __enter__(self):
+        import signal
+        self._old_handler = signal.signal(signal.SIGALRM, self._raise)
+        self._old_timer = signal.setitimer(signal.ITIMER_REAL, self.seconds)
+        self._t0 = time.time()
+        return self
+
+    @staticmethod
+    def _raise(signum, frame):
+        raise ImplTimeout()
+
+    def __exit__(self, *exc):
+        import signal
+        signal.setitimer(signal.ITIMER_REAL, 0)
+        signal.signal(signal.SIGALRM, self._old_handler)
+        remaining, _ = self._old_timer
+        if remaining > 0:       # re-arm the enclosing deadline (the watchdog of harness.main)
+            signal.setitimer(signal.ITIMER_REAL, max(0.01, remaining - (time.time() - self._t0)))
+        return False
+
+
 def impl_env_setup():
     """Process-wide settings for running /repo code under this interpreter."""
     os.environ.setdefault("CUDA_VISIBLE_DEVICES", "")
